@@ -19,6 +19,9 @@ import (
 // (plus overlay) for the configuration in c.Config.
 func (c *Ctx) Load() error {
 	env := os.Environ()
+	if _, err := os.Stat("/opt/veriftools/go1.26.8/bin/go"); err == nil {
+		env = append(env, "PATH=/opt/veriftools/go1.26.8/bin:"+os.Getenv("PATH"))
+	}
 	env = append(env, "GOWORK=off", "GOFLAGS=-mod=mod", "GOPROXY=off", "GOSUMDB=off", "GOTOOLCHAIN=local", "CGO_ENABLED=0")
 	if c.Config != "" {
 		parts := strings.SplitN(c.Config, "/", 2)
@@ -72,6 +75,8 @@ func (c *Ctx) Load() error {
 			if InModule(sp.Pkg.Path()) {
 				sp.Build()
 				c.SSA[sp.Pkg.Path()] = sp
+			} else if c.Prop.BuildAll {
+				sp.Build()
 			}
 		}
 		n := 0
